@@ -118,7 +118,7 @@ class C10Monitor(X.Monitor):
         expect, undecided = [], set()
         for o in objs:
             dec, margin = ref.ref_is_target(V.filter_view(o, st.ego_ref), is_gt, params)
-            if margin < EPS:
+            if margin < st.eps:
                 undecided.add(id(o))
                 ctx.skip("boundary_skipped")
                 continue
@@ -161,9 +161,9 @@ class C10Monitor(X.Monitor):
                     undecided.add(id(r))  # statement is silent on GT-less results under a uuid filter
                     continue
             # a failing side decides on its own; otherwise both margins matter
-            if (not dec_e and m_e >= EPS) or (not dec_g and m_g >= EPS):
+            if (not dec_e and m_e >= st.eps) or (not dec_g and m_g >= st.eps):
                 continue  # decisively removed
-            if m_e < EPS or m_g < EPS:
+            if m_e < st.eps or m_g < st.eps:
                 undecided.add(id(r))
                 ctx.skip("boundary_skipped")
                 continue
@@ -518,7 +518,7 @@ class C03Monitor(X.Monitor):
                     if o is None:
                         continue
                     dec, margin = ref.ref_in_region(V.filter_view(o, st.ego_ref), is_gt, params)
-                    if margin < EPS:
+                    if margin < st.eps:
                         ctx.skip("boundary_skipped")
                     elif not dec:
                         ctx.violate("C03", "region", "%s counts an %s outside the critical region (%s frame)" %
@@ -527,7 +527,7 @@ class C03Monitor(X.Monitor):
         for kind, seq in (("FN", fn), ("TN", tn)):
             for o in seq:
                 dec, margin = ref.ref_in_region(V.filter_view(o, st.ego_ref), True, params)
-                if margin < EPS:
+                if margin < st.eps:
                     ctx.skip("boundary_skipped")
                 elif not dec:
                     ctx.violate("C03", "region", "%s counts a ground truth outside the critical region (%s frame)" % (kind, V.frame_of(o)),
@@ -583,7 +583,7 @@ def tp_weight(ctx, r, label, mode_name, threshold, policy, aph):
     return 1.0, nearb
 
 
-def check_map(ctx, where, index, map_, frames_results, gt_counts, policy, level):
+def check_map(ctx, where, index, map_, frames_results, gt_counts, policy, level, prop="C04", cp=""):
     """Recompute one Map (all labels, AP and APH) from the observed per-frame results.
 
     frames_results: list of lists of object results in the order they were pooled.
@@ -617,7 +617,7 @@ def check_map(ctx, where, index, map_, frames_results, gt_counts, policy, level)
             got = ap_obj.ap
             store.append(got)
             if ap_obj.num_ground_truth != num_gt:
-                ctx.violate("C04", "gt_count", "%s AP uses %d ground truths, %d observed for %s" % (level, ap_obj.num_ground_truth, num_gt, lab),
+                ctx.violate(prop, cp + "gt_count", "%s AP uses %d ground truths, %d observed for %s" % (level, ap_obj.num_ground_truth, num_gt, lab),
                             {}, index)
                 continue
             if boundary:
@@ -627,30 +627,30 @@ def check_map(ctx, where, index, map_, frames_results, gt_counts, policy, level)
             if want is None:
                 ctx.probe("ap_undefined_label")
                 if got != float("inf"):
-                    ctx.violate("C04", "ap_equals_area", "%s %s defined (%r) although there is no result for %s" % (level, "APH" if aph else "AP", got, lab), {}, index)
+                    ctx.violate(prop, cp + "ap_equals_area", "%s %s defined (%r) although there is no result for %s" % (level, "APH" if aph else "AP", got, lab), {}, index)
                 continue
             if got == float("inf") or got != got:
-                ctx.violate("C04", "ap_equals_area", "%s %s undefined although results exist for %s" % (level, "APH" if aph else "AP", lab), {}, index)
+                ctx.violate(prop, cp + "ap_equals_area", "%s %s undefined although results exist for %s" % (level, "APH" if aph else "AP", lab), {}, index)
                 continue
-            if not (-1e-9 <= got <= 1.0 + 1e-9):
-                ctx.violate("C04", "in_unit_interval", "%s %s = %r outside [0,1] (%s, %s)" % (level, "APH" if aph else "AP", got, mode_name, lab),
+            if prop == "C04" and not (-1e-9 <= got <= 1.0 + 1e-9):
+                ctx.violate(prop, cp + "in_unit_interval", "%s %s = %r outside [0,1] (%s, %s)" % (level, "APH" if aph else "AP", got, mode_name, lab),
                             {"num_gt": num_gt, "n_results": len(ranked)}, index)
             if tie_matters:
                 ctx.skip("c04_confidence_tie")
                 continue
             if abs(got - want) > 1e-9:
-                ctx.violate("C04", "ap_equals_area", "%s %s differs from the interpolated PR area (%s, thr %s)" % (level, "APH" if aph else "AP", mode_name, thr),
+                ctx.violate(prop, cp + "ap_equals_area", "%s %s differs from the interpolated PR area (%s, thr %s)" % (level, "APH" if aph else "AP", mode_name, thr),
                             {"got": got, "want": want, "weights": weights[:12], "num_gt": num_gt, "label": lab}, index)
             ctx.probe("c04_ap_checked")
             if len(ranked) >= 2 and num_gt >= 1:
                 ctx.probe("c04_nontrivial")
-        if aps[-1] != float("inf") and aphs and aphs[-1] != float("inf") and aphs[-1] > aps[-1] + 1e-9:
-            ctx.violate("C04", "aph_le_ap", "%s APH %r exceeds AP %r" % (level, aphs[-1], aps[-1]), {}, index)
+        if prop == "C04" and aps[-1] != float("inf") and aphs and aphs[-1] != float("inf") and aphs[-1] > aps[-1] + 1e-9:
+            ctx.violate(prop, cp + "aph_le_ap", "%s APH %r exceeds AP %r" % (level, aphs[-1], aps[-1]), {}, index)
     for name, vals, got in (("mAP", aps, map_.map), ("mAPH", aphs, map_.maph)):
         defined = [v for v in vals if v != float("inf")]
         want = sum(defined) / len(defined) if defined else float("inf")
         if (want == float("inf")) != (got == float("inf")) or (want != float("inf") and abs(want - got) > 1e-9):
-            ctx.violate("C04", "map_is_mean_of_defined", "%s %s = %r, mean of defined = %r" % (level, name, got, want), {}, index)
+            ctx.violate(prop, cp + "map_is_mean_of_defined", "%s %s = %r, mean of defined = %r" % (level, name, got, want), {}, index)
     return labels, mode_name, aps, aphs
 
 
